@@ -461,8 +461,33 @@ pub fn run_real(ctor: &Ctor, ops: &[BOp]) -> RealOutcome {
                         }
                     }
                     Payload::TlvTuple(k, _) => b.write_payload((*k, data.as_slice())),
+                    // every kind through its own concrete type, by value or by reference (a
+                    // harness wrapper would hide anything the trait gains later)
+                    Payload::U8(x) => b.write_payload(*x),
+                    Payload::U16(x) => b.write_payload(*x),
                     Payload::U32(x) => b.write_payload(*x),
+                    Payload::U64(x) => b.write_payload(*x),
+                    Payload::U128(x) => b.write_payload(*x),
+                    Payload::Usize(x) => b.write_payload(*x),
+                    Payload::I8(x) => b.write_payload(*x),
+                    Payload::I16(x) => b.write_payload(*x),
+                    Payload::I32(x) => b.write_payload(x),
                     Payload::I64(x) => b.write_payload(*x),
+                    Payload::I128(x) => b.write_payload(x),
+                    Payload::Isize(x) => b.write_payload(*x),
+                    Payload::Addr(fam, f) => {
+                        let a = addresses_from(*fam, &data);
+                        if f.seed % 2 == 0 {
+                            b.write_payload(a)
+                        } else {
+                            b.write_payload(&a)
+                        }
+                    }
+                    Payload::TlvTyped(i, _) => {
+                        b.write_payload((TYPE_TABLE[*i as usize % 12].0, data.as_slice()))
+                    }
+                    Payload::Type(i) => b.write_payload(TYPE_TABLE[*i as usize % 12].0),
+                    Payload::Section(_) => b.write_payload(TypeLengthValues::from(data.as_slice())),
                     _ => b.write_payload(to_p(p, &data)),
                 };
                 match r {
@@ -746,6 +771,48 @@ pub fn gen_history(rng: &mut Rng, sc: &mut Scenario) {
             sc.ops = ops;
             return;
         }
+        3 if rng.chance(1, 2) => {
+            // room reserved (or grown) first, then a single value above 65535 bytes: the
+            // size limit must not depend on the buffer's spare capacity
+            let ctor = gen_ctor(rng);
+            let mut ops = Vec::new();
+            if rng.chance(1, 3) {
+                ops.push(BOp::SetLength(Some(rng.below(65536) as u16)));
+            }
+            match rng.below(3) {
+                0 => ops.push(BOp::Reserve(*rng.pick(&[65_536usize, 70_000, 131_072, 1 << 20]))),
+                1 => {
+                    // growth by doubling: a large write, a small one, then the oversize one
+                    ops.push(BOp::Write(Payload::Slice(Fill {
+                        len: *rng.pick(&[65_535usize, 40_000, 33_000]),
+                        seed: rng.next_u64(),
+                    })));
+                    ops.push(BOp::Write(Payload::U8(1)));
+                }
+                _ => {
+                    ops.push(BOp::Write(gen_payload(rng, false)));
+                    ops.push(BOp::Reserve(200_000));
+                }
+            }
+            let f = Fill {
+                len: *rng.pick(&[65_536usize, 65_537, 70_000]),
+                seed: rng.next_u64(),
+            };
+            ops.push(match rng.below(6) {
+                0 | 1 => BOp::Write(Payload::Slice(f)),
+                2 => BOp::Write(Payload::TlvStruct(rng.byte(), f)),
+                3 => BOp::Write(Payload::TlvTuple(rng.byte(), f)),
+                4 => BOp::Batch(vec![gen_payload(rng, false), Payload::Slice(f)]),
+                _ => BOp::WriteTlv(rng.byte(), f),
+            });
+            if rng.chance(1, 2) {
+                ops.push(BOp::SetLength(Some(rng.below(65536) as u16)));
+            }
+            sc.sub = "history_reserved_oversize".into();
+            sc.ctor = Some(ctor);
+            sc.ops = ops;
+            return;
+        }
         2 if rng.chance(1, 40) => {
             // one batch with more items than a 16-bit counter holds
             let ctor = gen_ctor(rng);
@@ -796,7 +863,12 @@ pub fn gen_history(rng: &mut Rng, sc: &mut Scenario) {
                         _ => None,
                     })
                     .collect();
-                BOp::SetLength(match rng.below(8) {
+                let running = {
+                    let m = run_model(&ctor, &ops);
+                    (m.body_len() % 65536) as u16
+                };
+                BOp::SetLength(match rng.below(9) {
+                    8 => Some(running),
                     0 => None,
                     1 => Some(0),
                     2 => Some(65535),
